@@ -332,9 +332,21 @@ impl World {
                 (vec![], vec![])
             }
         };
-        let proto: Vec<Vec<String>> = (0..self.h.protocols())
-            .map(|i| self.h.protocol_events(i).iter().map(|e| format!("{e:?}").chars().take(60).collect()).collect())
-            .collect();
+        let mut events = events;
+        let mut proto: Vec<Vec<String>> = vec![];
+        for i in 0..self.h.protocols() {
+            let evs = self.h.protocol_events(i);
+            if i == 0 {
+                // what the protocol that issues `hdial` sees
+                for e in &evs {
+                    if let litep2p::verif::mgr::ProtoEvent::DialFailure { peer, addresses } = e {
+                        events.push(json!({"k": "proto_dial_failure", "peer": self.pname(peer), "cid": -1,
+                            "addrs": addresses.iter().map(|a| self.aname(a)).collect::<Vec<_>>()}));
+                    }
+                }
+            }
+            proto.push(evs.iter().map(|e| format!("{e:?}").chars().take(60).collect()).collect());
+        }
         let (li, lo) = self.h.limits();
         let mut pend: Vec<usize> = self.h.pending_connections().iter().map(|(c, _)| *c).collect();
         pend.sort();
